@@ -16,7 +16,7 @@ use std::collections::BTreeMap;
 use std::io::Write;
 use std::sync::OnceLock;
 use std::time::{Duration, SystemTime};
-use vfs::{VfsFileType, VfsMetadata, VfsPath};
+use vfs::{VfsMetadata, VfsPath};
 
 fn candidates() -> Vec<SystemTime> {
     let e = SystemTime::UNIX_EPOCH;
